@@ -2,7 +2,14 @@
 operations and a derived attribute whose OAL bodies call each other (call graphs), plus enumerations and constants.
 A *case* is a JSON-able description (signatures + body trees + entry invocation + population + row order); `build` turns it
 into model text (rows as BridgePoint writes them), `run_real` loads it with the real loader / mk_component and invokes the
-entry from Python, `run_reference` evaluates it with ref_oal.Machine."""
+entry from Python, `run_reference` evaluates it with ref_oal.Machine.
+
+A case with `wide: true` uses a larger model: bridges may belong to any external entity (owner EX, EY, ...), A is reflexive
+over R3 ('leads' / 'follows'), and there is a third class with key letters T (attributes t_id, i, n; R5: A one-to-many T) whose
+*name* (O_OBJ.Name, `twin_name`, default 'A') equals the name of class A - class names need not be unique, key letters are.
+Operations may be owned by A, B or T; derived attributes (all integer) are keyed '<name>' (class A) or '<class>.<name>'.
+The elements of a model are identified by kind + owner + name: equal names in different owners / kinds are different elements.
+An entry of kind 'sequence' invokes its `steps` one after the other from Python on one population (result: the list of results)."""
 import random
 
 import vlib.fresh_ply  # noqa: F401
@@ -22,6 +29,33 @@ POPULATION = dict(
     A=[dict(a_id=1, i=1, s='x', b=True), dict(a_id=2, i=2, s='y', b=False), dict(a_id=3, i=3, s='x', b=True)],
     B=[dict(b_id=11, n=10, t='p'), dict(b_id=12, n=20, t='q'), dict(b_id=13, n=30, t='p')],
     links=dict(R1=[[0, 0], [0, 1], [1, 2]]))
+# wide cases: R3 chains A[2] -> A[0] -> A[3] -> A[4] ('leads' reaches the predecessor), A[1] stands alone; A[0] has two T, A[3] one
+POPULATION_WIDE = dict(
+    A=POPULATION['A'] + [dict(a_id=4, i=4, s='', b=False), dict(a_id=5, i=5, s='y', b=True)],
+    B=POPULATION['B'] + [dict(b_id=14, n=40, t='')],
+    T=[dict(t_id=31, i=6, n=100), dict(t_id=32, i=7, n=200), dict(t_id=33, i=8, n=300), dict(t_id=34, i=9, n=400)],
+    links=dict(R1=[[0, 0], [0, 1], [1, 2], [3, 3]], R3=[[2, 0], [0, 3], [3, 4]], R5=[[0, 1], [0, 0], [3, 2]]))
+DEFAULT_OWNER = dict(function=None, bridge='EX', cop='A', iop='A', derived='A')
+
+
+def default_population(case):
+    return case.get('population') or (POPULATION_WIDE if case.get('wide') else POPULATION)
+
+
+def derived_items(case):
+    """[(class, name, body)] of the derived attributes of a case (keys '<name>' = class A, or '<class>.<name>')."""
+    out = []
+    for key, body in sorted((case.get('derived') or {}).items()):
+        cls, _, name = key.rpartition('.')
+        out.append((cls or 'A', name, body))
+    return out
+
+
+def element_key(kind, owner, name):
+    """Name of an action in `bodies` (unchanged for the elements of the small model)."""
+    if owner in (None, DEFAULT_OWNER.get(kind)):
+        return '%s %s' % (kind, name) if kind != 'derived' else 'derived A.%s' % name
+    return '%s %s.%s' % (kind, owner, name) if kind == 'derived' else '%s %s::%s' % (kind, owner, name)
 
 
 # ------------------------------------------------------------------------------------------------- case -> model / schema
@@ -31,9 +65,15 @@ def make_schema(case):
     s.classes['A'] = [R.Attr('a_id', 'unique_id', 'id'), R.Attr('i', 'integer'), R.Attr('s', 'string'), R.Attr('b', 'boolean')]
     s.classes['B'] = [R.Attr('b_id', 'unique_id', 'id'), R.Attr('n', 'integer'), R.Attr('t', 'string'),
                       R.Attr('a_id', 'unique_id', 'ref', 'R1', 'a_id', 'A')]
-    for name in sorted(derived):
-        s.classes['A'].append(R.Attr(name, 'integer', 'derived', body=derived[name]))
     s.rels['R1'] = R.Rel('R1', 'simple', 'A', 'B', form_many=True)
+    if case.get('wide'):
+        s.classes['A'].append(R.Attr('prev_id', 'unique_id', 'ref', 'R3', 'a_id', 'A'))
+        s.classes['T'] = [R.Attr('t_id', 'unique_id', 'id'), R.Attr('i', 'integer'), R.Attr('n', 'integer'),
+                          R.Attr('a_id', 'unique_id', 'ref', 'R5', 'a_id', 'A')]
+        s.rels['R3'] = R.Rel('R3', 'simple', 'A', 'A', part_phrase='leads', form_phrase='follows')
+        s.rels['R5'] = R.Rel('R5', 'simple', 'A', 'T', form_many=True)
+    for cls, name, body in derived_items(case):
+        s.classes[cls].append(R.Attr(name, 'integer', 'derived', body=body))
     for c in case['callables']:
         params = [(n, t) for n, t in c['params']]
         call = R.Callable_(c['kind'], c['name'], params, c['ret'], c['body'], c.get('owner'))
@@ -52,8 +92,8 @@ def make_schema(case):
 
 def body_list(case):
     """[(key, body tree)] of every action of the case, in a fixed order."""
-    out = [('%s %s' % (c['kind'], c['name']), c['body']) for c in case['callables']]
-    out += [('derived A.%s' % name, body) for name, body in sorted((case.get('derived') or {}).items())]
+    out = [(element_key(c['kind'], c.get('owner'), c['name']), c['body']) for c in case['callables']]
+    out += [(element_key('derived', cls, name), body) for cls, name, body in derived_items(case)]
     return out
 
 
@@ -77,15 +117,21 @@ def build(case, style=None, casing=None):
     m = bp.BPModel('C15')
     derived = case.get('derived') or {}
     texts = bodies(case, style, casing)
-    m.klass('A', [('a_id', 'unique_id'), ('i', 'integer'), ('s', 'string'), ('b', 'boolean')] +
-            [(name, 'integer', texts['derived A.%s' % name]) for name in sorted(derived)])
-    m.klass('B', [('b_id', 'unique_id'), ('n', 'integer'), ('t', 'string')])
+    dattrs = dict((c, []) for c in 'ABT')
+    for cls, name, _ in derived_items(case):
+        dattrs[cls].append((name, 'integer', texts[element_key('derived', cls, name)]))
+    m.klass('A', [('a_id', 'unique_id'), ('i', 'integer'), ('s', 'string'), ('b', 'boolean')] + dattrs['A'])
+    m.klass('B', [('b_id', 'unique_id'), ('n', 'integer'), ('t', 'string')] + dattrs['B'])
     m.simple(1, 'B', 'A', 'a_id', 'a_id', form_many=True)
+    if case.get('wide'):
+        m.klass('T', [('t_id', 'unique_id'), ('i', 'integer'), ('n', 'integer')] + dattrs['T'], name=case.get('twin_name', 'A'))
+        m.simple(3, 'A', 'A', 'a_id', 'prev_id', form_many=False, form_phrase='follows', part_phrase='leads')
+        m.simple(5, 'T', 'A', 'a_id', 'a_id', form_many=True)
     bridges = {}
     for c in case['callables']:
         params = tuple((n, t) for n, t in c['params'])
         ret = TYPE_NAME.get(c['ret'], 'void')
-        text = texts['%s %s' % (c['kind'], c['name'])]
+        text = texts[element_key(c['kind'], c.get('owner'), c['name'])]
         if c['kind'] == 'function':
             m.function(c['name'], text, params, ret)
         elif c['kind'] == 'bridge':
@@ -145,7 +191,7 @@ def find_callable(case, entry):
 def run_reference(case, logic='strict', where_effects=False):
     """(result, snapshot, machine) of the entry invocation; raises OutOfDomain."""
     sch = make_schema(case)
-    w = G.populate_ref(sch, case.get('population') or POPULATION)
+    w = G.populate_ref(sch, default_population(case))
     m = R.Machine(w, max_steps=4000, max_depth=12, max_calls=60, logic=logic, where_effects=where_effects)
     try:
         return G.with_timeout(lambda: _run_reference(case, sch, w, m), 10.0)
@@ -154,24 +200,30 @@ def run_reference(case, logic='strict', where_effects=False):
 
 
 def _run_reference(case, sch, w, m):
-    e = case['entry']
-    this = w.extent['A'][e['this']] if e.get('this') is not None else None
+    rows = dict((cls, list(w.extent[cls])) for cls in w.extent)       # `this` counts the instances of the initial population
+    return _reference_entry(case, sch, rows, m, case['entry']), R.snapshot(w), m
+
+
+def _reference_entry(case, sch, rows, m, e):
+    if e['kind'] == 'sequence':
+        return [_reference_entry(case, sch, rows, m, step) for step in e['steps']]
+    this = rows[e.get('owner') or 'A'][e['this']] if e.get('this') is not None else None
     if e['kind'] == 'derived':
-        result = m.expr(['attr', ['self'], e['name']], R.Frame(None, this))
-    elif e['kind'] == 'symbol':
-        result = sch.consts[e['name']] if e['name'] in sch.consts else None
-    else:
-        c = find_callable(case, e)
-        call = (sch.functions.get(c['name']) if c['kind'] == 'function' else
-                sch.bridges.get((c['owner'], c['name'])) if c['kind'] == 'bridge' else sch.operations[(c['owner'], c['name'])])
-        result = m.call(call, dict(e['args']), this)
-    return result, R.snapshot(w), m
+        return m.expr(['attr', ['self'], e['name']], R.Frame(None, m.live(this)))
+    if e['kind'] == 'symbol':
+        return sch.consts[e['name']] if e['name'] in sch.consts else None
+    c = find_callable(case, e)
+    call = (sch.functions.get(c['name']) if c['kind'] == 'function' else
+            sch.bridges.get((c['owner'], c['name'])) if c['kind'] == 'bridge' else sch.operations[(c['owner'], c['name'])])
+    return m.call(call, dict(e['args']), m.live(this) if this is not None else None)
 
 
 def invoke(domain, rows, entry):
     """Invoke the entry from Python the way a user of mk_component does."""
     args = dict(entry.get('args') or {})
     kind = entry['kind']
+    if kind == 'sequence':
+        return [invoke(domain, rows, step) for step in entry['steps']]
     if kind == 'function':
         return domain.find_symbol(entry['name'])(**args)
     if kind == 'bridge':
@@ -179,9 +231,9 @@ def invoke(domain, rows, entry):
     if kind == 'cop':
         return getattr(domain.find_class(entry['owner']), entry['name'])(**args)
     if kind == 'iop':
-        return getattr(rows['A'][entry['this']], entry['name'])(**args)
+        return getattr(rows[entry.get('owner') or 'A'][entry['this']], entry['name'])(**args)
     if kind == 'derived':
-        return getattr(rows['A'][entry['this']], entry['name'])
+        return getattr(rows[entry.get('owner') or 'A'][entry['this']], entry['name'])
     raise KeyError(kind)
 
 
@@ -192,7 +244,7 @@ def run_real(case, style=None, casing=None):
         domain = load(case, style, casing)
     except Exception as e:
         return None, None, 'loading the model: %s: %s' % (type(e).__name__, e)
-    rows = G.populate_real(domain, sch, case.get('population') or POPULATION)
+    rows = G.populate_real(domain, sch, default_population(case))
     try:
         result = G.with_timeout(lambda: invoke(domain, rows, case['entry']), 8.0)
     except G.Timeout:
@@ -265,7 +317,9 @@ class CGen(G.Gen):
         self.calls_left = 3
         self.ret = me.ret if me is not None else 'int'
         self.has_self = me is not None and me.kind in ('iop', 'derived')
+        self.self_cls = (me.owner or 'A') if self.has_self else None
         self.pure_only = me is not None and me.pure
+        self.derived_names = dict((cls, [a.name for a in attrs if a.kind == 'derived']) for cls, attrs in sch.classes.items())
 
     # -- expressions -------------------------------------------------------------------------------------------
     def atoms(self, ty, sel):
@@ -273,13 +327,15 @@ class CGen(G.Gen):
         if self.me is not None:
             out += [['param', n] for n, t in self.me.params if TY[t] == ty and n != 'd']
         if self.has_self:
-            out += [['attr', ['self'], a] for a in self.attrs_of('A', ty)]
+            out += [['attr', ['self'], a] for a in self.attrs_of(self.self_cls, ty)]
         if ty == 'int' and not (self.me is not None and self.me.kind == 'derived'):
-            out += [['attr', ['var', n], 'd'] for n in self.visible('A')]     # derived attribute A.d
-            if sel == 'A':
-                out.append(['attr', ['selected'], 'd'])
-            if self.has_self:
-                out.append(['attr', ['self'], 'd'])
+            for cls in sorted(self.derived_names):                              # derived attributes (A.d, in wide cases more)
+                for d in self.derived_names[cls]:
+                    out += [['attr', ['var', n], d] for n in self.visible(cls)]
+                    if sel == cls:
+                        out.append(['attr', ['selected'], d])
+                    if self.self_cls == cls:
+                        out.append(['attr', ['self'], d])
         if ty == 'int':
             out += [['enum', 'Color', 'green'], ['enum', 'Color', 'blue'], ['enum', 'Mode', 'on'], ['const', 'K1']]
         elif ty == 'str':
@@ -293,10 +349,14 @@ class CGen(G.Gen):
         for s in self.sigs:
             if s.ret != ret or (pure and not s.pure):
                 continue
-            if s.kind == 'iop' and not (self.has_self or self.visible('A')):
+            if s.kind == 'iop' and not self.receivers(s):
                 continue
             out.append(s)
         return out
+
+    def receivers(self, sig):
+        """Handles an instance-based operation of sig's class can be invoked on."""
+        return [['var', v] for v in self.visible(sig.owner)] + ([['self']] if self.self_cls == sig.owner else [])
 
     def expr(self, ty, depth, sel=None):
         if self.calls_left > 0 and ty in ('int', 'str', 'bool') and depth >= 0:
@@ -322,8 +382,7 @@ class CGen(G.Gen):
             return ['bcall', sig.owner, sig.name, args]
         if sig.kind == 'cop':
             return ['ccall', sig.owner, sig.name, args]
-        targets = [['var', v] for v in self.visible('A')] + ([['self']] if self.has_self else [])
-        return ['icall', self.ch.pick(targets), sig.name, args]
+        return ['icall', self.ch.pick(self.receivers(sig)), sig.name, args]
 
     # -- statements --------------------------------------------------------------------------------------------
     def st_assign_var(self, in_loop, depth):
@@ -339,14 +398,14 @@ class CGen(G.Gen):
         return G.Gen.st_assign_var(self, in_loop, depth)
 
     def st_call(self, in_loop, depth):
-        cands = [s for s in self.sigs if (s.pure or not self.pure_only) and (s.kind != 'iop' or self.has_self or self.visible('A'))]
+        cands = [s for s in self.sigs if (s.pure or not self.pure_only) and (s.kind != 'iop' or self.receivers(s))]
         if not cands or self.calls_left <= 0:
             return None
         self.calls_left -= 1
         return [['call', self.call_expr(self.ch.pick(cands), self.p['depth'])]]
 
     def st_assign_attr(self, in_loop, depth):
-        targets = [(['var', n], c) for n, c in self.visible_insts()] + ([(['self'], 'A')] if self.has_self and self.me.kind == 'iop' else [])
+        targets = [(['var', n], c) for n, c in self.visible_insts()] + ([(['self'], self.self_cls)] if self.has_self and self.me.kind == 'iop' else [])
         if not targets:
             return None
         h, cls = self.ch.pick(targets)
@@ -356,7 +415,7 @@ class CGen(G.Gen):
 
     def st_selrel(self, in_loop, depth):
         if self.has_self and self.ch.chance(0.5):
-            to, rel, phrase, to_many = self.ch.pick(self.steps['A'])
+            to, rel, phrase, to_many = self.ch.pick(self.steps[self.self_cls])
             card = self.ch.pick(['any', 'many']) if to_many else 'one'
             name = self.ch.pick(G.VARS[to + '*' if card == 'many' else to])
             w = self.where(to)
@@ -395,19 +454,99 @@ def gen_body(ch, sch, sigs, me, statements):
     return [['if', ['bin', '>', ['param', 'd'], ['int', 0]], pre + body, [], None]]
 
 
-PARAM_NAMES = ((('n', 'x', 'y'), 'integer'), (('t', 'u'), 'string'), (('c', 'p'), 'boolean'))
+PARAM_NAMES = (('n', 'x', 'y'), 'integer'), (('t', 'u'), 'string'), (('c', 'p'), 'boolean')
 
 
-def gen_case(rng, bare_rate=0.12):
-    """One random call graph with an entry invocation."""
+# ------------------------------------------------------------------------------------------------- derived attribute bodies
+# Bodies of derived attributes that read or assign an attribute of the *same name* on other instances.  `name` is the derived
+# attribute; on the other instance it is the same derived attribute (another instance of the class: recursion), a derived
+# attribute of the other class with a body of its own, or an ordinary attribute (B.n, T.n).
+def _self(name):
+    return ['attr', ['self'], name]
+
+
+def derived_body(form, name, k=1):
+    own, X, O = _self(name), ['var', 'x'], ['var', 'o']
+
+    def sum_over(var, setvar, cls, rel, where=None):
+        return [['selrel', 'many', setvar, ['self'], [[cls, rel, None]], where],
+                ['for', var, setvar, [['assign', X, ['bin', '+', X, ['attr', ['var', var], name]]]]]]
+    if form == 'own':               # class A or T: no other instance involved
+        return [['assign', own, ['bin', '+', ['bin', '*', _self('i'), ['int', 2]], ['int', k]]]]
+    if form == 'up':                # recursion over R3 toward the predecessor: the depth of the instance in its chain
+        return [['selrel', 'one', 'o', ['self'], [['A', 'R3', 'leads']], None],
+                ['if', ['un', 'empty', O], [['assign', own, ['int', k]]], [], [['assign', own, ['bin', '+', ['attr', O, name], ['int', 1]]]]]]
+    if form == 'down':              # recursion toward the successor, reading the own value assigned before
+        return [['assign', own, _self('i')], ['selrel', 'one', 'o', ['self'], [['A', 'R3', 'follows']], None],
+                ['if', ['un', 'not_empty', O], [['assign', own, ['bin', '+', ['bin', '*', ['attr', O, name], ['int', 10]], own]]], [], None]]
+    if form == 'first-then':        # assigned first, then replaced by a value computed from the predecessor's
+        return [['assign', own, ['int', 5 + k]], ['selrel', 'one', 'o', ['self'], [['A', 'R3', 'leads']], None],
+                ['if', ['un', 'not_empty', O], [['assign', own, ['bin', '+', ['attr', O, name], ['int', 1]]]], [], None]]
+    if form == 'peer':              # another instance of the class found by a where clause (recursion ends at the smallest i)
+        return [['selfrom', 'any', 'o', 'A', ['bin', '==', ['attr', ['selected'], 'i'], ['bin', '-', _self('i'), ['int', 1]]]],
+                ['if', ['un', 'empty', O], [['assign', own, _self('i')]], [], [['assign', own, ['bin', '+', ['bin', '*', ['attr', O, name], ['int', 2]], _self('i')]]]]]
+    if form == 'sum-B':             # local accumulator over the related instances of another class
+        return [['assign', X, ['int', k]]] + sum_over('b1', 'bs1', 'B', 'R1') + [['assign', own, X]]
+    if form == 'acc-B':             # the attribute itself accumulates
+        return [['assign', own, ['int', k]], ['selrel', 'many', 'bs1', ['self'], [['B', 'R1', None]], None],
+                ['for', 'b1', 'bs1', [['assign', own, ['bin', '+', own, ['attr', ['var', 'b1'], name]]]]]]
+    if form == 'where-B':           # the equally named attribute of the other class in a where clause
+        return [['selrel', 'many', 'bs1', ['self'], [['B', 'R1', None]], ['bin', '>=', ['attr', ['selected'], name], ['int', 10 * k]]],
+                ['assign', own, ['bin', '+', ['bin', '*', ['un', 'cardinality', ['var', 'bs1']], ['int', 10]], ['int', k]]]]
+    if form == 'write-B':           # assigns the equally named attribute of the other instance
+        B1 = ['var', 'b1']
+        return [['selrel', 'any', 'b1', ['self'], [['B', 'R1', None]], None],
+                ['if', ['un', 'not_empty', B1], [['assign', ['attr', B1, name], ['bin', '+', ['attr', B1, name], ['int', k]]],
+                                                 ['assign', own, ['bin', '*', ['attr', B1, name], ['int', 10]]]], [], [['assign', own, ['un', '-', ['int', 1]]]]]]
+    if form == 'sum-T':             # over R5: T.<name> is an ordinary attribute or a derived one with a body of its own
+        return [['assign', X, _self('i')]] + sum_over('t1', 'ts1', 'T', 'R5') + [['assign', own, X]]
+    if form == 'T-up':              # class T: from the instance of A it belongs to
+        return [['selrel', 'one', 'o', ['self'], [['A', 'R5', None]], None],
+                ['if', ['un', 'empty', O], [['assign', own, _self('i')]], [], [['assign', own, ['bin', '+', ['bin', '*', ['attr', O, name], ['int', 100]], _self('i')]]]]]
+    raise KeyError(form)
+
+
+A_FORMS_ANY = ('up', 'down', 'first-then', 'peer')         # A.<any name>: other instances of A
+A_FORMS_N = ('sum-B', 'acc-B', 'where-B', 'write-B')       # A.n: B.n is an ordinary attribute
+
+
+def gen_wide_derived(rng):
+    """Derived attributes of a random wide case: A.d, sometimes T.d and A.n."""
+    out = {}
+    form = rng.choice(A_FORMS_ANY + ('own', 'sum-T'))
+    out['d'] = derived_body(form, 'd', rng.randint(0, 2))
+    if form == 'sum-T' or rng.random() < 0.5:               # T.d: another class of the same name with an attribute of the same name
+        out['T.d'] = derived_body('own' if form == 'sum-T' or rng.random() < 0.5 else 'T-up', 'd', rng.randint(3, 5))
+    if rng.random() < 0.5:
+        out['n'] = derived_body(rng.choice(A_FORMS_N + ('sum-T', 'up', 'sum-B')), 'n', rng.randint(0, 2))
+    return out
+
+
+def gen_case(rng, bare_rate=0.12, wide_rate=0.4):
+    """One random call graph with an entry invocation.  About wide_rate of the cases use the wide model: elements with equal
+    names (bridges of EX and EY and functions named N1 / N2, operations of A and T named O1..O3), derived attributes that
+    look at other instances, several invocations from Python in a row."""
     ch = G.RandomChooser(rng)
+    wide = rng.random() < wide_rate
     sigs = []
     counts = {}
+    taken = set()
     for _ in range(rng.randint(2, 5)):
         kind = rng.choice(['function', 'function', 'bridge', 'cop', 'iop', 'iop'])
         counts[kind] = counts.get(kind, 0) + 1
         name = dict(function='F', bridge='G', cop='C', iop='I')[kind] + str(counts[kind])
         owner = dict(function=None, bridge='EX', cop='A', iop='A')[kind]
+        if wide:
+            for _ in range(6):
+                if kind in ('function', 'bridge'):
+                    name, owner = 'N%d' % rng.randint(1, 2), (rng.choice(['EX', 'EY']) if kind == 'bridge' else None)
+                else:
+                    name, owner = 'O%d' % rng.randint(1, 3), rng.choice(['A', 'A', 'T'])
+                if (kind in ('cop', 'iop'), kind == 'bridge', owner, name) not in taken:
+                    break
+            else:
+                continue
+            taken.add((kind in ('cop', 'iop'), kind == 'bridge', owner, name))
         # parameter names: n / t / c or a name the bodies also use for local variables (x y u p)
         params = [('d', 'integer')] + [(rng.choice(names), ty) for names, ty in PARAM_NAMES if rng.random() < 0.5]
         r = rng.random()
@@ -419,20 +558,36 @@ def gen_case(rng, bare_rate=0.12):
             ret, form = rng.choice(['int', 'int', 'str', 'bool']), 'value'
         pure = form == 'value' and rng.random() < 0.5
         sigs.append(Sig(kind, name, owner, params, ret, form, pure))
-    case = dict(callables=[], derived={}, population=None, rows=None)
-    shell = dict(callables=[s.as_dict() for s in sigs], derived={})
-    sch = make_schema(dict(shell, callables=[dict(c, body=[]) for c in shell['callables']]))
+    case = dict(callables=[], derived={}, rows=None)
+    if wide:
+        case['wide'] = True
+        case['derived'] = gen_wide_derived(rng)
+    else:
+        case['derived'] = {'d': []}
+    shell = dict(case, callables=[dict(s.as_dict(), body=[]) for s in sigs])
+    sch = make_schema(shell)
     for s in sigs:
         s.body = gen_body(ch, sch, sigs, s, rng.randint(1, 4))
-    dsig = Sig('derived', 'd', 'A', [], 'int', 'value', True)
-    g = CGen(ch, sch, [s for s in sigs if s.pure and s.kind != 'iop'], dsig, dict(call_rate=0.3))
-    case['derived'] = {'d': [['assign', ['attr', ['self'], 'd'], ['bin', '+', ['attr', ['self'], 'i'], g.expr('int', 1)]]]}
+    if not wide:
+        dsig = Sig('derived', 'd', 'A', [], 'int', 'value', True)
+        g = CGen(ch, sch, [s for s in sigs if s.pure and s.kind != 'iop'], dsig, dict(call_rate=0.3))
+        case['derived'] = {'d': [['assign', ['attr', ['self'], 'd'], ['bin', '+', ['attr', ['self'], 'i'], g.expr('int', 1)]]]}
     case['callables'] = [s.as_dict() for s in sigs]
-    entry = rng.choice(sigs)
-    args = {}
-    for n, t in entry.params:
-        args[n] = rng.choice([1, 2, 2, 3]) if n == 'd' else dict(integer=rng.choice([0, 1, 5]), string=rng.choice(['', 'x', 'yz']),
-                                                                 boolean=rng.choice([True, False]))[t]
-    case['entry'] = dict(kind=entry.kind, name=entry.name, owner=entry.owner, args=args, this=rng.randrange(3) if entry.kind == 'iop' else None)
-    del case['population']
+    pop = default_population(case)
+
+    def one_entry():
+        if wide and rng.random() < 0.3:
+            cls, name, _ = rng.choice(derived_items(case))
+            return dict(kind='derived', name=name, owner=cls, args={}, this=rng.randrange(len(pop[cls])))
+        entry = rng.choice(sigs)
+        args = {}
+        for n, t in entry.params:
+            args[n] = rng.choice([1, 2, 2, 3]) if n == 'd' else dict(integer=rng.choice([0, 1, 5]), string=rng.choice(['', 'x', 'yz']),
+                                                                     boolean=rng.choice([True, False]))[t]
+        return dict(kind=entry.kind, name=entry.name, owner=entry.owner, args=args,
+                    this=rng.randrange(len(pop[entry.owner])) if entry.kind == 'iop' else None)
+    if wide and rng.random() < 0.7:
+        case['entry'] = dict(kind='sequence', steps=[one_entry() for _ in range(rng.randint(2, 3))])
+    else:
+        case['entry'] = one_entry()
     return case
